@@ -7,6 +7,7 @@
 import Aqv.Lemmas.ConsensusBatch
 import Aqv.Lemmas.ConsensusUncles
 import Aqv.Model.ConsensusGen
+import Aqv.Lemmas.Translated.Params
 namespace Aqv.Props.C13
 open Aqv.Consensus
 
@@ -401,5 +402,20 @@ example : BatchOk exStored exBatch where
 -- … and the first header failing its seal is reported at index 0 by both paths, for any schedule
 example : firstFailure (verifyHeadersBatch (genEnv exCfg 1700000000 (fun h => h.number == 19999)) exStored exBatch [true, true] [1, 0]) = some (0, .sealErr) ∧
     sequentialFirstFailure (genEnv exCfg 1700000000 (fun h => h.number == 19999)) [true, true] exStored exBatch 0 = some (0, .sealErr) := by decide
+
+/-! ### tie by translation (T-gen `translated`, DESIGN 2.2 mini-translator): the fork predicates of package params
+
+params.isForked and (*ChainConfig).IsHF / GetHF are translated from the go/ssa form of the tree under test on every run
+(`Aqv.Gen.Translated`; a `*big.Int` is an `Option Int`, nil = none; the map `c.HF` is a function; result `none` = panic).
+On the fork map of the model (`hfMapOf c`) the translated code never panics and computes `Config.isHF` / `Config.getHF`,
+the predicates every header-rule theorem above is stated on (proofs in `Aqv.Lemmas.Translated.Params`). -/
+theorem isHF_code_is_model (c : Config) (hf : Nat) (h : hf < 2 ^ 63) (num : Nat) :
+    Aqv.Gen.Translated.ChainConfig_IsHF (Aqv.Lemmas.Translated.hfMapOf c) (Int64.ofNat hf) (some (num : Int)) = some (c.isHF hf num) ∧
+    Aqv.Gen.Translated.ChainConfig_GetHF (Aqv.Lemmas.Translated.hfMapOf c) (Int64.ofNat hf) = some ((c.getHF hf).map Nat.cast) :=
+  ⟨Aqv.Lemmas.Translated.ChainConfig_IsHF_translated_eq c hf h num, Aqv.Lemmas.Translated.ChainConfig_GetHF_translated_eq c hf h⟩
+
+example : Aqv.Gen.Translated.ChainConfig_IsHF (Aqv.Lemmas.Translated.hfMapOf ⟨1, [(5, 100)]⟩) 5 (some 100) = some true ∧
+    Aqv.Gen.Translated.ChainConfig_IsHF (Aqv.Lemmas.Translated.hfMapOf ⟨1, [(5, 100)]⟩) 5 (some 99) = some false ∧
+    Aqv.Gen.Translated.ChainConfig_IsHF (Aqv.Lemmas.Translated.hfMapOf ⟨1, [(5, 100)]⟩) 6 (some 1000) = some false := by decide
 
 end Aqv.Props.C13
